@@ -103,8 +103,9 @@ structure ElemClass where
   /-- constructor parameters: name, keyword-only?, default -/
   params : List (String × Bool × Option Val)
   fields : List (String × FExpr)
-  /-- `if self.<flag>: self.<field> -= np.pi/2` -/
-  sinShift : Option (String × String)
+  /-- `if self.<flag>: self.<field> -= np.pi/2`, or with the third component `(p, n)`:
+  `self.<field> -= n if p else np.pi/2` (`p` a constructor parameter) -/
+  sinShift : Option (String × String × Option (String × Rat))
   /-- the expression forwarded as schemdraw's own `reverse=` (geometry only) -/
   revForward : String
   props : List (String × PExpr)
